@@ -12,6 +12,7 @@ import (
 	"github.com/klauspost/compress/snappy"
 	"github.com/klauspost/compress/zstd"
 	"hash/crc32"
+	"io"
 	"sort"
 	"strings"
 
@@ -119,6 +120,22 @@ func genHistConfig(r Rng) (bs.BloomSearchEngineConfig, tokMode, string, []string
 			keys = []string{"k1"}
 			cfg.MinMaxIndexes = keys
 		}
+	}
+	// legal extremes: each rarely, so that most histories keep their ordinary shape
+	if r.Chance(0.08) {
+		cfg.MaxBufferedRows = 1
+	}
+	if r.Chance(0.08) {
+		cfg.IngestBufferSize = 1
+	}
+	if r.Chance(0.1) {
+		cfg.MaxFileSize = 300 + r.IntN(3000)
+	}
+	if r.Chance(0.08) {
+		cfg.BloomFalsePositiveRate = pick(r, []float64{1e-9, 0.999})
+	}
+	if len(keys) > 0 && r.Chance(0.08) {
+		cfg.MinMaxIndexes = append(append([]string(nil), keys...), keys[0]) // a key listed twice
 	}
 	return cfg, tm, pm, keys
 }
@@ -369,7 +386,11 @@ func (h *History) Layout() ([]FileObs, error) {
 	var out []FileObs
 	for _, f := range files {
 		fo := FileObs{Ptr: string(f.PointerBytes), Meta: f.Metadata, Bytes: pub[string(f.PointerBytes)]}
-		rd := bytes.NewReader(fo.Bytes)
+		// every other file is read through a reader that returns few bytes per Read (io.Reader allows it)
+		var rd io.ReadSeeker = bytes.NewReader(fo.Bytes)
+		if len(fo.Bytes)%2 == 1 {
+			rd = &shortReadSeeker{R: bytes.NewReader(fo.Bytes), K: 1 + len(fo.Bytes)%29}
+		}
 		for _, bm := range f.Metadata.DataBlocks {
 			bo := BlockObs{File: fo.Ptr, Meta: bm}
 			data, err := bs.ReadDataBlockRowData(rd, &bm)
@@ -437,3 +458,17 @@ func normComp(c bs.CompressionType) bs.CompressionType {
 	}
 	return c
 }
+
+// shortReadSeeker returns at most K bytes per Read.
+type shortReadSeeker struct {
+	R *bytes.Reader
+	K int
+}
+
+func (s *shortReadSeeker) Read(p []byte) (int, error) {
+	if len(p) > s.K {
+		p = p[:s.K]
+	}
+	return s.R.Read(p)
+}
+func (s *shortReadSeeker) Seek(off int64, whence int) (int64, error) { return s.R.Seek(off, whence) }
